@@ -317,8 +317,11 @@ contract field Coordinator.getConfig()
   ensures result != nil && result == self.gCfg
   modifies nothing
 
+// the explorer's status object for a target (replica independent)
+ghost global gExploreOf seq[int]
 contract field Coordinator.getExploreResult(hash)
   ensures result != nil ==> wfStatus(result)
+  ensures result == gExploreOf[hash]
   modifies nothing
 
 contract field Coordinator.getActive()
@@ -435,9 +438,15 @@ contract Coordinator.applyShardsInfo
 // ---------- status bookkeeping ----------
 pred allEntriesWf(g) = forall h, st in g :: wfStatus(st)
 
+// C19 "what is sent to the shards of one replica does not depend on ... any other replica": the status view a replica is
+// planned with is built afresh from the reports of that replica's own shards, the explorer's object or a new object
+on insert_local "map[uint64]*tkestack.io/kvass/pkg/target.ScrapeStatus"(m, k, v) in Coordinator.globalScrapeStatus
+   assert[C19] @status_comes_from_this_replica_or_the_explorer fresh(v) || v == gExploreOf[k] || (defined(s) && (s in shards) && v == s.scraping[k])
+
 contract Coordinator.globalScrapeStatus
   requires wfCoord(c) && wfAll() && live(shards)
-  ensures result != nil && fresh(result) && allEntriesWf(result)
+  ensures[C19] @status_view_is_built_afresh result != nil && fresh(result)
+  ensures allEntriesWf(result)
   ensures forall h in active :: h in result
   modifies target.ScrapeStatus.* at {}, tkestack.io/kvass/pkg/scrape.StatisticsSeriesResult.* at {}, mapof(shardInfo.scraping) at {}, mapof(tkestack.io/kvass/pkg/scrape.StatisticsSeriesResult.MetricsTotal) at {}
   loop 1 invariant ret != nil && fresh(ret) && allEntriesWf(ret)
@@ -458,13 +467,25 @@ pred allEntriesNonNil(g) = forall h, st in g :: st != nil
 
 pred statusesStayWf() = forall st : *target.ScrapeStatus :: (old(allocated(st)) && old(st.Series) >= 0 && old(st.TotalSeries) >= 0) ==> (st.Series >= 0 && st.TotalSeries >= 0)
 
+// C19: the merged view shown by the API owns its entries - it must not alias (and later write through to) status objects
+// that belong to a replica's shards or to the explorer, which the next replica / the next cycle plans with
+ghost field target.ScrapeStatus.gMerged bool
+pred mergedOwned(a) = forall h, st in a :: st != nil && st.gMerged
+pred planningFieldsKept() = forall st : *target.ScrapeStatus :: (old(allocated(st)) && !old(st.gMerged)) ==> (st.Series == old(st.Series) && st.TotalSeries == old(st.TotalSeries)
+      && st.TargetState == old(st.TargetState) && st.Health == old(st.Health) && st.ScrapeTimes == old(st.ScrapeTimes) && st.gMerged == old(st.gMerged))
+on insert_unowned shardInfo.scraping(m, k, v) in mergeScrapeStatus
+   assert[C19] @merged_view_owns_its_entries fresh(v)
+   do v.gMerged = true
+
 contract mergeScrapeStatus
-  requires a != nil && gScrOwner[a] == nil && allEntriesWf(a) && allEntriesWf(b)
-  ensures result == a && allEntriesWf(a)
+  requires a != nil && gScrOwner[a] == nil && allEntriesWf(a) && allEntriesWf(b) && mergedOwned(a)
+  ensures result == a && allEntriesWf(a) && mergedOwned(a)
+  ensures[C19] @only_merged_copies_are_written planningFieldsKept()
   ensures statusesStayWf()
   ensures forall m : mapof(shardInfo.scraping) :: (old(allocated(m)) && m != a) ==> samemap(m)
   modifies target.ScrapeStatus.*, mapof(shardInfo.scraping) at {a}
-  loop 1 invariant allEntriesWf(a) && allEntriesWf(b)
+  loop 1 invariant allEntriesWf(a) && allEntriesWf(b) && mergedOwned(a)
+  loop 1 invariant[C19] @only_merged_copies_are_written planningFieldsKept()
   loop 1 invariant statusesStayWf()
 
 // ---------- the cycle ----------
@@ -551,4 +572,5 @@ contract Coordinator.runOnce
   loop 1 invariant[C19] gListCalls == old(gListCalls) + idx1 && gPlannedReplicas - old(gPlannedReplicas) + gEarlyScaleFailed - old(gEarlyScaleFailed) == gListedOk - old(gListedOk)
   loop 1 invariant wfAll()
   loop 1 invariant newLastGlobalScrapeStatus != nil && fresh(newLastGlobalScrapeStatus) && gScrOwner[newLastGlobalScrapeStatus] == nil && allEntriesWf(newLastGlobalScrapeStatus)
+  loop 1 invariant[C19] mergedOwned(newLastGlobalScrapeStatus)
 @*/
